@@ -249,6 +249,39 @@ Qed.
 Example c04_example_permuted_table : Permutation ex_table (rev ex_table).
 Proof. apply Permutation_rev. Qed.
 
+(** Two histories (different order, a restart, a redeploy) ending in the same
+    set of services: the hypothesis of [c04_history_free]. *)
+Definition ex_dep (name : str) (hosts prefixes : list str) : cmd :=
+  Deploy name (mkSopts hosts prefixes false false CertNone PagesNone false)
+         (mkTopts (bs "/up") 0) [mkTgt (bs "t1:80") true].
+Definition ex_hist1 : list cmd :=
+  [ ex_dep (bs "a") [bs "x.com"] []; ex_dep (bs "b") [bs "x.com"; bs "*.x.com"] [bs "api/"] ].
+Definition ex_hist2 : list cmd :=
+  [ ex_dep (bs "b") [] []; ex_dep (bs "a") [bs "x.com"] [bs "/"]; Restart;
+    ex_dep (bs "b") [bs "x.com"; bs "*.x.com"] [bs "/api"]; ex_dep (bs "a") [bs "x.com"] [bs "//"];
+    Restart ].
+
+Example c04_example_histories :
+  Permutation (table_of (st_services (exec_all fixed init_state ex_hist1)))
+              (table_of (st_services (exec_all pinned init_state ex_hist2))) /\
+  table_of (st_services (exec_all fixed init_state ex_hist1)) <>
+  table_of (st_services (exec_all pinned init_state ex_hist2)) /\
+  table_of (st_services (exec_all fixed init_state ex_hist1)) <> [].
+Proof.
+  repeat split.
+  - vm_compute. apply perm_swap.
+  - vm_compute. intros H. discriminate.
+  - vm_compute. intros H. discriminate.
+Qed.
+
+(** Hypotheses of [c04_port_ignored]. *)
+Example c04_example_port :
+  bs "example.com" <> [] /\ plain (bs "example.com") /\ forallb is_digit (bs "8080") = true /\
+  request_host_key (bs "example.com:8080") = bs "example.com".
+Proof.
+  repeat split; try (vm_compute; reflexivity); intros H; vm_compute in H; intuition discriminate.
+Qed.
+
 Print Assumptions c04_seg_match.
 Print Assumptions c04_seg_match_rooted.
 Print Assumptions c04_trailing_slash.
